@@ -40,6 +40,12 @@ DOCS = [
     '<a xmlns="u1" xmlns:p="u2"><p:a xmlns:p="urn:p"><a xmlns=""><p:a/><a xmlns="urn:q" p:z="1" z="2"/></a></p:a><p:a><q:a xmlns:q="urn:p"/></p:a></a>',
     # 6: an element with a matching child AFTER a nested element of the same name (context nodes that nest)
     '<r><a><b id="1"/><a><b id="2"/><c/></a><b id="3"/></a><a><b id="4"/></a></r>',
+    # 8: prefixes that are case variants of `xml` (ordinary prefixes), next to the real xml: prefix
+    # (appended below)
+    # 7: xml:lang next to attributes that merely have the local name lang
+    '<r xml:lang="en"><a lang="fr"><b/>t</a><c p:lang="de" xmlns:p="urn:p"><!--k--></c><d xml:lang=""><e/></d><f xml:lang="EN-us" lang="de"/></r>',
+    # 8: prefixes that are case variants of `xml` are ordinary prefixes
+    '<r xmlns:XML="urn:p" xmlns:Xml="urn:q"><XML:a XML:x="1" Xml:y="2" xml:space="default" x="0"/><Xml:b XmL:z="3" xmlns:XmL="urn:p"><XML:c/></Xml:b></r>',
 ]
 
 AXES = ['ancestor', 'ancestor-or-self', 'attribute', 'child', 'descendant', 'descendant-or-self', 'following', 'following-sibling',
@@ -50,14 +56,18 @@ TESTS = {0: ['*', 'node()', 'text()', 'comment()', 'processing-instruction()', "
          3: ['*', 'node()', 'a', 'b', 's', 'i'],
          4: ['*', 'node()', 'text()', 'comment()', 'processing-instruction()', "processing-instruction('p2')", 'k', 'a', 'd'],
          5: ['*', 'node()', 'a', 'p:a', 'q:a', 'p:*', 'q:*', 'p:z', 'z'],
-         6: ['*', 'node()', 'a', 'b', 'c', 'id']}
+         6: ['*', 'node()', 'a', 'b', 'c', 'id'],
+         7: ['*', 'node()'],
+         8: ['*', 'node()', 'p:*', 'q:*', 'p:a', 'p:x', 'q:y', 'x']}
 CONTEXTS = {0: ['/', '/r', '//a', '//b', '//c', '//@x', '//text()', '//comment()', '/r/e/a', '//processing-instruction()'],
             1: ['/', '/*', '//p:a', '//a', '//*', '//@*'],
             2: ['/', '/r', '//y', '//n', '//text()'],
             3: ['/', '//s', '//a', '//b', '//a[@i=3]', '//a[@i=6]', '//@i'],
             4: ['/', '/r', '//k', '//comment()', '//processing-instruction()', '//text()', '//@*', '/comment()[1]', '/processing-instruction()[last()]'],
             5: ['/', '/*', '//*', '//p:a', '//q:a', '//a', '//@*'],
-            6: ['/', '//a', '//b', '//c', '//@id', '(//a)', '(//a | //b)', '(//*)', '(//a)[2]', '(//a//*)']}
+            6: ['/', '//a', '//b', '//c', '//@id', '(//a)', '(//a | //b)', '(//*)', '(//a)[2]', '(//a//*)'],
+            7: ['/'],
+            8: ['/', '//*', '//@*', '//p:a']}
 PREDS = ['', '[1]', '[2]', '[last()]', '[position()>1]', '[position()=last()-1]', '[@x]', '[not(@*)]', "[.='1']", '[a]', '[text()]', '[1][1]', '[2][1]', '[last()][1]',
          '[position() mod 2 = 1]', '[true()]', '[0]', '[1.5]', "['']", "['x']", '[count(*)]', '[.//a]', '[../a]', '[self::a or self::b]', '[string-length() > 1]']
 
@@ -142,6 +152,11 @@ CURATED = {
         'namespace-uri(//a[1])', 'name(/*/*[1])', 'name(/*/*[2])', 'name(/*/*[2]/*)', 'local-name(/*/*[2]/*)', 'namespace-uri(/*/*[2]/*)', '//@p:z', '//@z', '//@*', 'namespace-uri(//@p:z)', 'namespace-uri(//@z)', 'name(//@p:z)', 'name(//@z)',
         '//*[@p:z]', '//*[@z]', '//q:a/@q:z', '//q:a/@*', '//*[name() = "p:a"]', 'count(//*[name() = "p:a"])', '//*[name() = "q:a"]', '//*[name() = "a"]', '//p:a/p:a', '//p:a//p:a', '//p:a/ancestor::p:a', '//p:a/descendant::*',
         '//q:a/ancestor::*', '//q:a/preceding::*', '//q:a/following::*', '//p:a[p:a]', '//p:a[not(*)]', '//*[self::p:a]', '//*[self::q:a or self::a]', 'count(//*[self::p:a or self::q:a])'],
+    8: ['//@*', '//@p:*', '//@q:*', '//@p:x', '//@q:y', '//@p:z', '//@x', '//p:*', '//q:*', '//p:a', '//q:b', '//p:c', 'count(//@p:*)', 'count(//@*)', 'namespace-uri(//@*[. = 1])', 'namespace-uri(//@*[. = 2])', 'namespace-uri(//@*[. = 3])',
+        'namespace-uri(//@*[. = "default"])', 'local-name(//@*[. = "default"])', 'namespace-uri(//@x)', 'namespace-uri(/*/*[1])', 'namespace-uri(/*/*[2])', 'local-name(//@*[. = 3])', '//*[@p:x]', '//*[@p:z]', '//*[@q:y = 2]', '//*[namespace-uri() = "urn:p"]'],
+    7: ["//*[lang('en')]", "//*[lang('fr')]", "//*[lang('de')]", "//*[lang('')]", "//*[lang('en-us')]", "//*[lang('EN')]", "//*[lang('en-US-x')]", "//*[lang('e')]", "//node()[lang('en')]", "//text()[lang('fr')]", "//text()[lang('en')]",
+        "//comment()[lang('de')]", "//comment()[lang('en')]", "//@*[lang('en')]", "//@*[lang('fr')]", "//@*[lang('de')]", "count(//*[lang('en')])", "count(//@*[lang('en')])", "boolean(/r/d[lang('en')])", "boolean(/r/d/e[lang('en')])",
+        "boolean(/r/d/e[lang('')])", "/r/f[lang('en')]", "/r/f[lang('de')]", "//*[not(lang('en'))]", "lang('en')", "/r/a/b[lang('fr')]", "/r/a/b[lang('en')]"],
     6: ['(//a)/b', '((//a)/b)[2]', '((//a)/b)[last()]', '(//a)/b[1]', '(//a)/b[last()]', '(//a)/*', '(//a)//b', '(//a)/a/b', '(//a)/b/@id', '((//a)/b/@id)[2]', '(//a | //c)/..', '(//b)/..', '((//b)/..)[1]', '(//b)/../b',
         '((//b)/../b)[3]', '(//a)/b | (//a)/c', '(//a)/child::b', '(//a)/self::a/b', '(//a)/descendant::b', '((//a)/descendant::b)[2]', '(//*)/b', '((//*)/b)[3]', '(//a)[1]/b', '(//a)[2]/b', '(//a)[last()]/b',
         'count((//a)/b)', 'string(((//a)/b)[2]/@id)', 'string(((//a)/b)[3]/@id)', 'sum((//a)/b/@id)', '(//a/b)[2]', '//a/b[2]', '//a/b', '//a//b', '(//a//b)[3]', '(/r/a | /r/a/a)/b', '((/r/a | /r/a/a)/b)[2]', '(/r/a/a | /r/a)/b',
